@@ -230,7 +230,7 @@ def run(ctx):
         if path_mode:
             toks = gen.rand_path_tokens(rng, maxseg=rng.randint(1, 3), alpha='ab.c', depth=rng.randint(0, 3))
         else:
-            toks = gen.rand_tokens(rng, maxtok=rng.randint(1, 7), depth=rng.randint(0, 3), alpha=rng.choice(('ab.c', 'aB.', 'a.(|')))
+            toks = gen.rand_tokens(rng, maxtok=rng.randint(1, 7), depth=rng.randint(0, 3), alpha=rng.choice(('ab.c', 'aB.', 'a.(|', 'a\xe9.\u0416\xc9', 'a.\U0001f600\xff')))
         if not toks or gen.ambiguous_adjacency(toks):
             continue
         fn = ['EXTMATCH'] + flag_choice(rng, path_mode, k)
